@@ -109,10 +109,24 @@ func (o GeomOpts) pts(t *rapid.T, min int) []P2 {
 	// for bit with their neighbours
 	if n >= 5 && !o.ExactGrid && rapid.IntRange(0, 9).Draw(t, "rect") == 4 {
 		x0, y0, x1, y1 := float64(out[0][0]), float64(out[0][1]), float64(out[2][0]), float64(out[2][1])
+		if rapid.Bool().Draw(t, "rectsmall") {
+			// a grid cell in longitude/latitude range, often with a side on zero
+			small := rapid.SampledFrom([]float64{0, 0, 0, 1, -1, 2, 5, -3, 10, 45, -45, 90, -90, 0.5, -0.25})
+			x0, y0, x1, y1 = small.Draw(t, "rx0"), small.Draw(t, "ry0"), small.Draw(t, "rx1"), small.Draw(t, "ry1")
+		}
 		if rapid.Bool().Draw(t, "rectyfirst") {
 			out = []P2{MkP(x0, y0), MkP(x0, y1), MkP(x1, y1), MkP(x1, y0), MkP(x0, y0)}
 		} else {
 			out = []P2{MkP(x0, y0), MkP(x1, y0), MkP(x1, y1), MkP(x0, y1), MkP(x0, y0)}
+		}
+		// a zero has a sign, and each vertex its own: the corners (and the closing vertex) that share a zero coordinate need
+		// not share its sign
+		for i := range out {
+			for k := 0; k < 2; k++ {
+				if float64(out[i][k]) == 0 && rapid.Bool().Draw(t, "rectzerosign") {
+					out[i][k] = F(math.Copysign(0, -1))
+				}
+			}
 		}
 		return out
 	}
